@@ -1,5 +1,5 @@
 (* C01/Witness.v — non-vacuity examples (vm_compute) *)
-From Verif Require Import Common.Base C01.Model C01.Spec C01.Checker C01.Harness C01.Proofs10.
+From Verif Require Import Common.Base C01.Model C01.Spec C01.Checker C01.Harness C01.Proofs10 C01.Proofs11.
 
 Definition cfg10 := mkCfg 10 true false.
 Definition cfg2 := mkCfg 2 true false.
@@ -178,3 +178,7 @@ Example link_ex :
   prop_ok (CHist 10 true false (wire h_ex) (model_hist 10 true false (wire h_ex))) = true /\
   prop_ok (CHist 2 true false (wire (h_refill ++ drains 3 3)) (model_hist 2 true false (wire (h_refill ++ drains 3 3)))) = true.
 Proof. vm_compute. repeat split; reflexivity. Qed.
+
+(* the hypothesis of the wire-level link theorem is satisfiable by a non-trivial history (three deaths, two in recovery) *)
+Example run_bounded_ex : run_bounded cfg10 store0 (hist_of (wire h_ex)).
+Proof. apply run_boundedb_sound. vm_compute. reflexivity. Qed.
